@@ -6,6 +6,7 @@ From Coq Require Import List String NArith ZArith Bool.
 From Piko Require Import Base.Maps Base.Strs Gossip.Types Gossip.Local Gossip.Apply Gossip.Codec Gossip.World.
 From Piko Require Import Gossip.Decode GossipP.CodecP GossipP.ApplyP GossipP.WorldP GossipP.DecodeP.
 From Piko Require Import generated.Constants GossipP.ConstantsP.
+From Piko Require Import Gossip.SkipFit GossipP.SkipFitP.
 Import ListNotations.
 Open Scope string_scope. Open Scope list_scope. Open Scope N_scope.
 
@@ -109,6 +110,19 @@ Theorem C13_message_types_distinct :
   NoDup [GoConst.messageTypeDigest; GoConst.messageTypeDelta; GoConst.messageTypeJoin; GoConst.messageTypeLeave].
 Proof. exact src_message_types_distinct. Qed.
 
+(* "decodes to a prefix of what was intended: whole entries only, per node in version order" is what the packing variant
+   "skip the entry that does not fit and go on with the smaller ones" loses (Gossip/SkipFit.v; written independently by five
+   authors of seeded changes). On small / LARGE / small outstanding entries the real loop packs the first one; the variant
+   packs the first and the third - not a prefix - and the observer that applies it reports version 3 of the owner while it
+   has no entry for the key written at version 2 (the hole of C02's V3; its next digest carries version 3, so the skipped
+   entry is never asked for again). *)
+Theorem C13_skip_variant_refuted :
+  map e_key sk_real = ["a"] /\
+  map e_key sk_var = ["a"; "c"] /\ (forall rest, sk_entries <> (sk_var ++ rest)%list) /\
+  (exists V, sk_view = Some V /\ n_ver V = 3%N /\ lookup "b" (n_ents V) = None /\
+             exists e, In e sk_entries /\ e_key e = "b" /\ (e_ver e <= n_ver V)%N).
+Proof. exact skip_variant_refuted. Qed.
+
 Print Assumptions C13_size_digest.
 Print Assumptions C13_size_delta.
 Print Assumptions C13_error_iff_header.
@@ -123,3 +137,4 @@ Print Assumptions C13_roundtrip_digest.
 Print Assumptions C13_example_cut.
 Print Assumptions C13_packet_prefix_is_the_sources.
 Print Assumptions C13_message_types_distinct.
+Print Assumptions C13_skip_variant_refuted.
